@@ -3,6 +3,7 @@ import Mdsort.Model.MimeEntity
 import Mdsort.Spec.Mime
 import Mdsort.Proofs.Decode
 import Mdsort.Proofs.MimeParts
+import Mdsort.Proofs.HeaderSort
 
 /-! Helper lemmas for C11 (MIME tree: boundary scanning vs. line-based cutting). -/
 
@@ -88,16 +89,122 @@ theorem parseAttachments_eq_spec_partial (fuel : Nat) (m : Msg) (h : BoundaryOk 
 
 /-! ### `getBody` -/
 
-theorem isContentType_eq (a : Msg) (ty : Bytes) :
+theorem tw_append {α} (p : α → Bool) (a b : List α) (ha : ∀ x ∈ a, p x = true)
+    (hb : ∀ x, b.head? = some x → p x = false) : (a ++ b).takeWhile p = a := by
+  induction a with
+  | nil =>
+    cases b with
+    | nil => rfl
+    | cons x r => simp [hb x rfl]
+  | cons x a ih =>
+    simp [ha x (by simp), ih (fun y hy => ha y (by simp [hy]))]
+
+theorem drop_tw_length {α} (p : α → Bool) (l : List α) : l.drop (l.takeWhile p).length = l.dropWhile p := by
+  induction l with
+  | nil => rfl
+  | cons x r ih =>
+    simp only [List.takeWhile_cons, List.dropWhile_cons]
+    split <;> simp [ih]
+
+theorem dw_head {α} (p : α → Bool) (l : List α) (c : α) (r : List α) (h : l.dropWhile p = c :: r) : p c = false := by
+  induction l with
+  | nil => cases h
+  | cons x l ih =>
+    simp only [List.dropWhile_cons] at h
+    split at h
+    · exact ih h
+    · rename_i hx; cases h; simpa using hx
+
+theorem lowerAscii_semi (d : UInt8) (h : Spec.lowerAscii d = 59) : d = 59 := by
+  unfold Spec.lowerAscii at h
+  split at h
+  · rename_i hu
+    exfalso
+    simp only [Bool.and_eq_true, decide_eq_true_eq] at hu
+    have h1 : 65 ≤ d.toNat := by simpa using UInt8.le_iff_toNat_le.mp hu.1
+    have h2 : d.toNat ≤ 90 := by simpa using UInt8.le_iff_toNat_le.mp hu.2
+    have h3 := congrArg UInt8.toNat h
+    simp [UInt8.toNat_add] at h3
+    omega
+  · exact h
+
+/-- `strncasecmp` prefix test followed by "`;` or end" is the token comparison of the media type. -/
+theorem typeTest_eq (t ty : Bytes) (hty : (59 : UInt8) ∉ ty) :
+    (startsWithCI t ty && (match t.drop ty.length with | [] => true | c :: _ => c == 59)) =
+      Spec.tokenEq (Spec.mediaType t) ty := by
+  rw [startsWithCI_eq, Bool.eq_iff_iff]
+  unfold Spec.tokenEq Spec.mediaType
+  simp only [Bool.and_eq_true, beq_iff_eq]
+  have hnosemi : ∀ a : Bytes, a.map Spec.lowerAscii = ty.map Spec.lowerAscii → (59 : UInt8) ∉ a := by
+    intro a ha hm
+    have : Spec.lowerAscii 59 ∈ a.map Spec.lowerAscii := List.mem_map_of_mem hm
+    rw [ha] at this
+    obtain ⟨d, hd, hd2⟩ := List.mem_map.1 this
+    have : Spec.lowerAscii 59 = 59 := by decide
+    rw [this] at hd2
+    exact hty (lowerAscii_semi d hd2 ▸ hd)
+  constructor
+  · rintro ⟨h1, h2⟩
+    have hns := hnosemi _ h1
+    have hsplit : t = t.take ty.length ++ t.drop ty.length := (List.take_append_drop _ _).symm
+    have htw : t.takeWhile (fun c => c != 59) = t.take ty.length := by
+      conv => lhs; rw [hsplit]
+      refine tw_append _ _ _ ?_ ?_
+      · intro x hx
+        have : x ≠ 59 := fun e => hns (e ▸ hx)
+        simpa using this
+      · intro x hx
+        cases hd : t.drop ty.length with
+        | nil => rw [hd] at hx; cases hx
+        | cons c r => rw [hd] at hx h2; cases hx; simpa using h2
+    rw [htw]; exact h1
+  · intro h
+    have hlen : (t.takeWhile (fun c => c != 59)).length = ty.length := by
+      have := congrArg List.length h; simpa using this
+    have hpre : t.takeWhile (fun c => c != 59) = t.take ty.length := by
+      rw [← hlen]
+      exact (List.prefix_iff_eq_take.mp (List.takeWhile_prefix _))
+    refine ⟨by rw [← hpre]; exact h, ?_⟩
+    have hdrop : t.drop ty.length = t.dropWhile (fun c => c != 59) := by
+      rw [← hlen]; exact drop_tw_length _ _
+    rw [hdrop]
+    cases hd : t.dropWhile (fun c => c != 59) with
+    | nil => rfl
+    | cons c r =>
+      have := dw_head _ _ _ _ hd
+      simpa using this
+
+theorem isContentType_eq (a : Msg) (ty : Bytes) (hty : (59 : UInt8) ∉ ty) :
     isContentType a ty = Spec.isType (entity.contentType a) ty := by
   unfold isContentType Spec.isType
   show (match getHeader1 a contentTypeName with | none => false | some t => _) =
     (match getHeader1 a contentTypeName with | none => false | some t => _)
-  cases getHeader1 a contentTypeName <;> rfl
+  cases getHeader1 a contentTypeName with
+  | none => rfl
+  | some t => exact typeTest_eq t ty hty
+
+theorem isContentType_alt (a : Msg) : isContentType a (ofString "multipart/alternative") =
+    Spec.isType (entity.contentType a)
+      [109, 117, 108, 116, 105, 112, 97, 114, 116, 47, 97, 108, 116, 101, 114, 110, 97, 116, 105, 118, 101] := by
+  rw [ofString_alternative]; exact isContentType_eq a _ (by decide)
+
+theorem isContentType_plain (a : Msg) : isContentType a (ofString "text/plain") =
+    Spec.isType (entity.contentType a) [116, 101, 120, 116, 47, 112, 108, 97, 105, 110] := by
+  rw [ofString_plain]; exact isContentType_eq a _ (by decide)
+
+theorem isContentType_html (a : Msg) : isContentType a (ofString "text/html") =
+    Spec.isType (entity.contentType a) [116, 101, 120, 116, 47, 104, 116, 109, 108] := by
+  rw [ofString_html]; exact isContentType_eq a _ (by decide)
+
+/-- `strcasecmp(enc, lit) == 0` is the token comparison. -/
+theorem caseCmp_eq_tokenEq (a b : Bytes) : (strcasecmp a b == .eq) = Spec.tokenEq a b := by
+  unfold Spec.tokenEq
+  rw [← tolower_eq_lowerAscii, Bool.eq_iff_iff]
+  simp only [beq_iff_eq, strcasecmp_eq_iff]
 
 theorem decodeBody_eq (p : Msg) : decodeBody p = Spec.decoded entity p := by
   unfold decodeBody Spec.decoded
-  simp only [ofString_base64, ofString_qp]
+  simp only [ofString_base64, ofString_qp, caseCmp_eq_tokenEq]
   show (match getHeader1 p cteName with | some enc => _ | none => _) =
     (match getHeader1 p cteName with | some enc => _ | none => _)
   cases getHeader1 p cteName with
@@ -132,14 +239,14 @@ theorem getBody_eq_spec_of_parts (m : Msg)
     (h : getAttachments m = Spec.parts entity (Gen.mimeDepthLimit + 1) m) :
     getBody m = Spec.decodedBody entity Gen.mimeDepthLimit m := by
   unfold getBody Spec.decodedBody
-  simp only [isContentType_eq, ofString_alternative]
+  simp only [isContentType_alt]
   split
   · exact decodeBody_eq m
   · rw [h]
     cases Spec.parts entity (Gen.mimeDepthLimit + 1) m with
     | none => rfl
     | some ps =>
-      simp only [pickAlternative_eq, isContentType_eq, ofString_plain, ofString_html]
+      simp only [pickAlternative_eq, isContentType_plain, isContentType_html]
       cases List.find? (fun p => Spec.isType (entity.contentType p)
           [116, 101, 120, 116, 47, 112, 108, 97, 105, 110]) ps with
       | some p => exact decodeBody_eq p
